@@ -86,6 +86,10 @@ func verifC17Dial() {
 			vAssert(vBytesEq(ech, rec), "ECH config list is the one of the HTTPS record that produced the address")
 		} else if publicName == "" {
 			vAssert(ech == nil, "no ECH config list invented")
+		} else {
+			// PublicName path: a bootstrap list naming exactly the public name
+			specs, perr := ParseConfigList(ech)
+			vAssert(perr == nil && len(specs) == 1 && string(specs[0].PublicName) == publicName, "PublicName bootstrap: one well-formed config naming the public name")
 		}
 		out := vInt(0, 3)
 		if prevRetry && out == 2 {
